@@ -225,7 +225,97 @@ fn traversal_cases(ctx: &mut Ctx) {
     }
 }
 
+// ------------------------------------------------------------------------------------------------
+// purity of the printer across calls and threads: its depth / node budget lives in a thread-local
+// (traversal.rs DEBUG_STATE); every TOP-LEVEL print must start with a fresh budget, whatever the thread
+// printed before (Model/HandIter.lean `dbgPrint`, Props/C01Hand.lean `debug_budget_reset_per_top_level_call`)
+
+/// length + FNV of the Debug output, without materialising it
+struct HashSink {
+    len: u64,
+    h: u64,
+}
+
+impl std::fmt::Write for HashSink {
+    fn write_str(&mut self, s: &str) -> std::fmt::Result {
+        self.len += s.len() as u64;
+        for b in s.bytes() {
+            self.h = (self.h ^ b as u64).wrapping_mul(0x0000_0100_0000_01b3);
+        }
+        Ok(())
+    }
+}
+
+fn print_digest(bytes: &[u8]) -> (u64, u64) {
+    use std::fmt::Write;
+    let mut sink = HashSink { len: 0, h: 0xcbf2_9ce4_8422_2325 };
+    if let Ok(paint) = Paint::read(FontData::new(bytes)) {
+        let _ = write!(sink, "{paint:?}");
+    }
+    (sink.len, sink.h)
+}
+
+fn on_fresh_thread(bytes: &[u8]) -> (u64, u64) {
+    let b = bytes.to_vec();
+    std::thread::Builder::new().stack_size(4 << 20).spawn(move || print_digest(&b)).expect("spawn").join().unwrap_or((0, 0))
+}
+
+fn purity_cases(ctx: &mut Ctx) {
+    // budget-exhausting inputs: shared targets (2^levels paths) run into the node limit of one call
+    let exhausting: Vec<(String, Vec<u8>)> = vec![
+        ("composite-dag levels=60".into(), composite_dag(60)),
+        ("composite-dag levels=24".into(), composite_dag(24)),
+        ("composite-dag levels=21".into(), composite_dag(21)),
+    ];
+    let small: Vec<(String, Vec<u8>)> = vec![
+        ("translate-chain levels=1".into(), translate_chain(1)),
+        ("translate-chain levels=8".into(), translate_chain(8)),
+        ("composite-dag levels=4".into(), composite_dag(4)),
+        ("translate-chain levels=70".into(), translate_chain(70)),
+    ];
+    // reference outputs, each on its own fresh thread
+    let fresh: Vec<(u64, u64)> = small.iter().map(|(_, b)| on_fresh_thread(b)).collect();
+    for (ename, ebytes) in &exhausting {
+        let what = format!("debug purity after `{ename}`");
+        PROGRESS.fetch_add(1, Ordering::Relaxed);
+        {
+            let mut cur = CURRENT.lock().unwrap();
+            cur.0 = what.clone();
+            cur.1 = ebytes[..ebytes.len().min(64)].to_vec();
+        }
+        // ONE thread: the exhausting print (twice in a row: same output), then every small table twice
+        let eb = ebytes.clone();
+        let sm: Vec<Vec<u8>> = small.iter().map(|(_, b)| b.clone()).collect();
+        let h = std::thread::Builder::new().stack_size(4 << 20).spawn(move || {
+            let e1 = print_digest(&eb);
+            let e2 = print_digest(&eb);
+            let after: Vec<((u64, u64), (u64, u64))> = sm.iter().map(|b| (print_digest(b), print_digest(b))).collect();
+            (e1, e2, after)
+        });
+        let Ok((e1, e2, after)) = h.expect("spawn").join() else {
+            ctx.oracle("no-panic", false, || what.clone(), || "printer thread died".into());
+            continue;
+        };
+        PROGRESS.fetch_add(1, Ordering::Relaxed);
+        let e_fresh = on_fresh_thread(ebytes);
+        ctx.oracle("debug-output-pure-across-calls-and-threads", e1 == e2 && e1 == e_fresh, || what.clone(), || {
+            format!("`{ename}` printed (len, fnv) {e1:?}, again on the same thread {e2:?}, on a fresh thread {e_fresh:?}")
+        });
+        for (k, (a, b)) in after.iter().enumerate() {
+            let sname = &small[k].0;
+            ctx.oracle(
+                "debug-output-pure-across-calls-and-threads",
+                *a == fresh[k] && *b == fresh[k],
+                || format!("{what}, then `{sname}` {}", hex(&small[k].1)),
+                || format!("`{sname}` printed (len, fnv) {a:?} and {b:?} after the exhausting print on the same thread, {:?} on a fresh thread", fresh[k]),
+            );
+        }
+        ctx.count("purity-sequences");
+    }
+}
+
 pub fn run(ctx: &mut Ctx) {
+    purity_cases(ctx);
     computed_array_cases(ctx);
     traversal_cases(ctx);
     for (name, bytes) in zero_item_tables() {
